@@ -6,7 +6,7 @@ Line-protocol driver for `Model/FileRef.lean` (C16).  Up to any number of files
 files created later inherit the fired channels).
 
   `reset`
-  `new f layered r w x size`                  → `ok | <dump>`
+  `new f layered r w x size [legacy]`         → `ok | <dump>`   (`legacy`: code before fix 17054c0)
   `op f <op…>`                                → `<out> | <dump>` or `disabled`
   `legal f <op…>`                             → `yes` | `no` | `disabled`
   `wakes f`                                   → enabled wake steps, `;`-separated (`mwake t` / `uwake t 0|1`) or `-`
@@ -143,10 +143,11 @@ def step (s : St) (ws : List String) : St × String :=
   | ["reset"] => (init, "ok")
   | ["save"] => ({ s with saved := (s.files, s.fired) }, "ok")
   | ["restore"] => ({ s with files := s.saved.1, fired := s.saved.2 }, "ok")
-  | ["new", f, l, r, w, x, size] =>
+  | "new" :: f :: l :: r :: w :: x :: size :: rest =>
+    -- an optional 8th word `legacy` selects the code before fix 17054c0
     match f.toNat?, flag? l, mask? r w, flag? x, size.toNat? with
     | some f, some l, some m, some x, some size =>
-      let st0 := BbRe.FileRef.init l x size m
+      let st0 := BbRe.FileRef.init (rest != ["legacy"]) l x size m
       let st : State := { st0 with fired := fun k => s.fired.contains k }
       let e : Entry := ⟨st, []⟩
       (store s f e, s!"ok | {dump e}")
